@@ -27,6 +27,7 @@ MUTATIONS = {
         ('richerror', 'tonic-types/src/richer_error/std_messages/debug_info.rs', r'stack_entries: debug_info\.stack_entries,', 'stack_entries: Vec::new(),', 'stack entries lost'),
     ],
     'C14': [
+        ('clientglue', 'tonic/src/client/grpc.rs', r'\.map_err\(Status::from_error_generic\)\?;', '.map_err(|_e| Status::unknown("transport"))?;', 'a transport failure is always reported as UNKNOWN'),
         ('errmap', 'tonic/src/status.rs', r'return Some\(Status::unavailable\(connect\.to_string\(\)\)\);', 'return Some(Status::cancelled(connect.to_string()));', 'a connect failure is not UNAVAILABLE'),
         ('errmap', 'tonic/src/status.rs', r'source = err\.source\(\);', 'source = None;', 'only the outermost error is inspected'),
         ('reconnect', 'tonic/src/transport/channel/service/reconnect.rs', r'if !\(self\.has_been_connected \|\| self\.is_lazy\) \{', 'if !(self.has_been_connected && self.is_lazy) {', 'lazy channel reports its first failure instead of parking it'),
